@@ -13,7 +13,8 @@ from multiprocessing import Pool
 from . import common
 from .common import Report, case_hash
 
-WEIGHT = {"s": 3, "g": 2, "i": 1}          # traced operations a call can amount to
+WEIGHT = {"s": 3, "g": 2, "i": 1, "d": 0}  # traced operations a call can amount to (d = format the holder with {:?}:
+                                           # not a call of the model; it must not touch the cell or the state)
 ORD_NAME = {"r": "Relaxed", "l": "Release", "a": "Acquire", "q": "AcqRel", "s": "SeqCst"}
 ACQ = frozenset("aqs")
 REL = frozenset("lqs")
@@ -118,6 +119,55 @@ def family(tier, seed):
     # expensive programs first so that the interleaved shards are balanced
     progs.sort(key=lambda p: (-sched_bound(p), p))
     return [fmt_prog(p) for p in progs], scope
+
+
+def dbg_family():
+    """programs in which the holder is also formatted with {:?} (it derives Debug) before, between and after the
+    calls of every thread: every program of 2 threads with <= 3 calls each over {set, get, is_set, d}, <= 7 traced
+    operations, at least one d; and the 3-thread programs set / d / get-or-is_set"""
+    seqs = [()]
+    for _ in range(3):
+        seqs += [q + (c,) for q in seqs for c in "sgid" if len(q) == max(len(x) for x in seqs)]
+    seqs = sorted(set(q for q in seqs if q))
+    out = []
+    for a in seqs:
+        for b in seqs:
+            if a <= b and "d" in a + b and "s" in a + b and weight((a, b)) <= 7:
+                out.append((a, b))
+    for r in "gi":
+        out += [(("s",), ("d",), (r,)), (("s", "d"), ("d", r), ("d",)), (("d", "s"), (r, "d"), ("s",))]
+    return [fmt_prog(q) for q in out]
+
+
+def strip_dbg(ps, line=None):
+    """the program the model runs (d is not a call of the model) and, given the implementation's observation of
+    the program with d, the same observation with the d results removed and the call indices renumbered.  An
+    observation in which a d call performed a traced operation is returned unchanged (it then disagrees)."""
+    prog = parse_prog(ps)
+    renum = [{} for _ in prog]
+    for t, th in enumerate(prog):
+        k = 0
+        for ci, c in enumerate(th):
+            if c != "d":
+                renum[t][ci] = k
+                k += 1
+    sp = "/".join(".".join(c for c in th if c != "d") or "-" for th in prog)
+    if line is None:
+        return sp
+    head, _, body = line.partition(" ")
+    out = []
+    for e in body.split(";") if body else []:
+        f = e.split("|")
+        toks = f[1].split(",") if f[1] else []
+        nt = []
+        for tok in toks:
+            ts, cis, op = tok.split(".", 2)
+            if int(cis) not in renum[int(ts)]:
+                return sp, line
+            nt.append("%s.%d.%s" % (ts, renum[int(ts)][int(cis)], op))
+        res = [".".join(r for r in th.split(".") if r != "d") for th in f[2].split("/")]
+        out.append("|".join([f[0], ",".join(nt), "/".join(res)] + f[3:]))
+    return sp, head + " " + ";".join(out)
 
 
 def small_family(maxw):
@@ -239,6 +289,12 @@ def check_entry(prog, entry, sites=None, stats=None):
                 if r != "u":
                     problems.append(("api", "set returned %r" % r, {}))
                 sets[c[1:]] = (t, ci, a, b)
+            elif c == "d":
+                if r != "d":
+                    problems.append(("api", "formatting the holder with {:?} returned %r" % r, {}))
+                if a is not None:
+                    problems.append(("api", "formatting the holder with {:?} performed traced operations on the holder "
+                                     "(operations %d..%d): it is not one of set / get / is_set" % (a, b), {}))
             elif c == "g":
                 if r[0] == "v":
                     values.add(r[1:])
@@ -445,6 +501,10 @@ def check_C18(tier, seed):
     if not common.ensure_built(rep):
         return rep.finish()
     progs, scope = family(tier, seed)
+    dprogs = dbg_family()
+    progs = progs + dprogs
+    scope += "; + %d programs that also format the holder with {:?}" % len(dprogs)
+    mprogs = [strip_dbg(p) if "d" in p else p for p in progs]
     try:
         impl = common.run_harness("singleton", ["A " + p for p in progs], shards=common.NCPU, timeout=1200)
     except (common.CheckFailure, Exception) as e:
@@ -483,12 +543,14 @@ def check_C18(tier, seed):
         rep.violation_input("%s (%d failing executions; smallest shown)" % (pr[0][1], nbad), first_input)
     # ---- (i) trace conformance with the model instantiated with the observed orderings
     try:
-        model = common.run_model("singleton", ["E %s %s" % (model_ords, p) for p in progs], shards=common.NCPU)
+        model = common.run_model("singleton", ["E %s %s" % (model_ords, p) for p in mprogs], shards=common.NCPU)
     except common.CheckFailure as e:
         rep.violation_noinput("model run failed", {"error": str(e)[-3000:]})
         return rep.finish()
     dis = []
     for p, i, m in zip(progs, impl, model):
+        if "d" in p:
+            i = strip_dbg(p, i)[1]
         if i == m:
             continue
         ie, me = i.partition(" ")[2].split(";"), m.partition(" ")[2].split(";")
@@ -512,7 +574,7 @@ def check_C18(tier, seed):
             e = es[rng.randrange(len(es))]
             if len(e) < 400 and "|!" not in e:
                 sched = "[" + "; ".join(e.split("|")[0]) + "]" if e.split("|")[0] != "-" else "[]"
-                kc.append((coq_prog(progs[j]), sched, coq_view(e)))
+                kc.append((coq_prog(mprogs[j]), sched, coq_view(e)))
         rc, out = common.run_obs_file("Obs_C18", obs_file(obs, kc))
         rep.cov["obligations"] += 1
         if rc == 0:
